@@ -54,6 +54,8 @@ def size_ok(e):
     """keep powers small so that values stay printable"""
     if e[0] == "bin":
         if e[1] == "^":
+            if not size_ok(e[3]):
+                return False              # the exponent is itself too large to evaluate: do not even compute it
             try:
                 b = gens.evaluate(e[3])
             except Exception:
@@ -168,6 +170,25 @@ def run(rng, tier, model_ok):
                 return {"why": "`to` binds loosest: expected %s cm" % w, "expected": str(w)}
             return None
         items.append((q, oracle))
+    # a comma between plain numbers separates arguments with or without blanks around it, whatever digits stand next to it
+    for _ in range(60 if tier == "quick" else 600):
+        a = rng.choice(["7", "22/7", "1.5", "12", "3 * 4", "100", "1000", "2 + 5"])
+        d = rng.choice(["100", "234", "999", "000", "10", "5", "1000", "12"])
+        val = gens.evaluate({"7": ("num", "7"), "22/7": ("bin", "/", ("num", "22"), ("num", "7")), "1.5": ("num", "1.5"), "12": ("num", "12"),
+                             "3 * 4": ("num", "12"), "100": ("num", "100"), "1000": ("num", "1000"), "2 + 5": ("num", "7")}[a])
+        n = int(d)
+        x = val * Fraction(10) ** n
+        import math
+        f = math.floor(abs(x) + Fraction(1, 2))
+        w = Fraction(f if x >= 0 else -f) / Fraction(10) ** n
+        for q in ("round(%s,%s)" % (a, d), "round(%s, %s)" % (a, d), "round(%s ,%s)" % (a, d)):
+            def oracle(reply, w=w):
+                v = pipeline.single_value(reply)
+                if v is None or Fraction(v[0], v[1]) != w:
+                    return {"why": "a comma separates the arguments: expected %s" % w, "expected": str(w)}
+                return None
+            items.append((q, oracle))
+        shapes["call"] += 3
     # several `to` at one level group left to right: the last one names the unit of the answer
     metric = [("km", 3), ("m", 0), ("cm", -2), ("mm", -3), ("dm", -1), ("nm", -9)]
     for _ in range(60 if tier == "quick" else 600):
